@@ -1,4 +1,5 @@
 """C15 - rejected input fails cleanly and leaves no process-wide residue"""
+import json
 import os
 import re
 import tempfile
@@ -6,7 +7,7 @@ import tempfile
 from hypothesis import strategies as st
 
 from vf import gen_eblif, gen_edif, gen_ir, gen_verilog, model
-from vf.core import Prop, Result
+from vf.core import Prop, Result, case_hash as core_hash
 from vf.props.c05 import NAMES
 
 EXT = {"edif": ".edf", "verilog": ".v", "eblif": ".eblif"}
@@ -14,7 +15,8 @@ EXT = {"edif": ".edf", "verilog": ".v", "eblif": ".eblif"}
 # therefore minutes of work, not a hang. Such inputs are outside what the fuzzer is allowed to produce.
 HUGE_NUMBER = re.compile(r"\d{5,}")
 KINDS = ["truncate", "truncate", "delete", "duplicate", "replace", "replace", "swap", "dangling", "dangling",
-         "unsupported", "all-truncations", "garbage", "recursive", "recursive"]
+         "unsupported", "all-truncations", "garbage", "recursive", "recursive", "dup-construct",
+         "dup-construct"]
 JUNK = ["(", ")", "0", "zz", '"s"', "cell", "net", "module", "endmodule", ";", ",", ".", "[", "]", "{", "}",
         ".model", ".end", ".subckt", "=", "\\", "`celldefine", "(*", "*)", "assign", "wire", "#"]
 
@@ -89,11 +91,36 @@ def fingerprint(nl):
     return repr(c)
 
 
-def probe():
-    """fixed script; its outcome trace must not depend on what was parsed (and rejected) before"""
+SPELLINGS = [("x y", "a.b"), ("a.b", "x y"), ("w/e", "net$1"), ("net$1", "3d"), ("3d", "w/e"),
+             ("sig-3", "x y")]
+
+
+def probe(s1="x y", s2="a.b"):
+    """fixed script; its outcome trace must not depend on what was parsed (and rejected) before.
+    s1, s2: spellings that are fine as names and illegal as EDIF identifiers (the generated texts
+    use them as names): s1 is used as a name first, s2 as an identifier first"""
     import spydrnet as sdn
 
     t = []
+    # the EDIF policy decides names and identifiers by different rules, whatever was asked before
+    sdn.namespace_manager.default = "EDIF"
+    try:
+        n2 = sdn.Netlist(name="probe2")
+        D2 = n2.create_library(name="L").create_definition(name="D")
+        for tag, fn in (
+            ("edif:name:s1", lambda: D2.create_port(name=s1)),
+            ("edif:identifier:s1", lambda: D2.ports[0].__setitem__("EDIF.identifier", s1)),
+            ("edif:identifier:s2", lambda: D2.create_cable(name="c0").__setitem__("EDIF.identifier", s2)),
+            ("edif:name:s2", lambda: D2.create_cable(name=s2)),
+            ("edif:identifier:legal", lambda: D2.create_cable(name="c1").__setitem__("EDIF.identifier", "ok_1")),
+        ):
+            try:
+                fn()
+                t.append((tag, "accepted"))
+            except Exception as e:  # noqa
+                t.append((tag, "refused:" + type(e).__name__))
+    finally:
+        sdn.namespace_manager.default = "DEFAULT"
     t.append(("default", sdn.namespace_manager.default))
     nl = sdn.Netlist(name="probe")
     t.append(("ns-of-new-netlist", nl.data.get(".NS")))
@@ -134,13 +161,33 @@ def probe():
 _REF = {}
 
 
-def reference_probe():
-    import spydrnet as sdn
+def _plain(t):
+    return json.loads(json.dumps(t))
 
-    if "t" not in _REF:
-        sdn.namespace_manager.default = "DEFAULT"
-        _REF["t"] = probe()
-    return _REF["t"]
+
+def reference_probe(pair=0):
+    """the probe's outcome in a FRESH process (same tree, same environment): what a process that never
+    parsed anything sees. One subprocess per spelling pair and worker, cached."""
+    import subprocess
+    import sys
+
+    pair %= len(SPELLINGS)
+    if pair not in _REF:
+        code = ("import json,sys; from vf.props import c15; import spydrnet as sdn; "
+                "sdn.namespace_manager.default='DEFAULT'; "
+                "print('PROBE'+json.dumps(c15.probe(*json.loads(sys.argv[1]))))")
+        out = subprocess.run([sys.executable, "-c", code, json.dumps(list(SPELLINGS[pair]))],
+                             capture_output=True, text=True, timeout=600,
+                             cwd=os.path.dirname(os.path.dirname(os.path.dirname(os.path.abspath(__file__)))))
+        line = [l for l in out.stdout.splitlines() if l.startswith("PROBE")]
+        if out.returncode != 0 or not line:
+            raise RuntimeError("fresh-process probe failed: %s" % (out.stderr[-800:],))
+        _REF[pair] = json.loads(line[-1][5:])
+    return _REF[pair]
+
+
+def probe_now(pair=0):
+    return _plain(probe(*SPELLINGS[pair % len(SPELLINGS)]))
 
 
 class C15(Prop):
@@ -223,6 +270,42 @@ class C15(Prop):
         if kind == "garbage":
             return [(join(fmt, toks[:i]) + " \x00\x07 %s ((( " % JUNK[w % len(JUNK)] + join(fmt, toks[i:]),
                      False, "garbage")]
+        if kind == "dup-construct":
+            # a whole declaration written twice (same identifier again): to be refused, or read into
+            # a well-formed netlist
+            if fmt == "edif":
+                role = ["instance", "instance", "net", "port", "cell", "library", "property"][w % 7]
+                heads = [k for k in range(n - 1) if toks[k] == "(" and toks[k + 1].lower() == role]
+                if not heads:
+                    heads = [k for k in range(n - 1) if toks[k] == "(" and toks[k + 1].lower() in (
+                        "instance", "net", "port", "cell", "library", "property")]
+                if not heads:
+                    return [(join(fmt, toks[:i]), False, "truncate")]
+                k = heads[pos % len(heads)]
+                depth, j = 0, k
+                while j < n:
+                    if toks[j] == "(":
+                        depth += 1
+                    elif toks[j] == ")":
+                        depth -= 1
+                        if depth == 0:
+                            break
+                    j += 1
+                return [(join(fmt, toks[:j + 1] + toks[k:j + 1] + toks[j + 1:]), False,
+                         "dup-" + toks[k + 1].lower())]
+            if fmt == "verilog":
+                ends = [k for k in range(n) if toks[k] == ";"]
+                if len(ends) < 2:
+                    return [(join(fmt, toks[:i]), False, "truncate")]
+                e = 1 + pos % (len(ends) - 1)
+                a, b = ends[e - 1] + 1, ends[e] + 1
+                return [(join(fmt, toks[:b] + toks[a:b] + toks[b:]), False, "dup-statement")]
+            ends = [k for k in range(n) if toks[k] == "\n"]
+            if len(ends) < 2:
+                return [(join(fmt, toks[:i]), False, "truncate")]
+            e = 1 + pos % (len(ends) - 1)
+            a, b = ends[e - 1] + 1, ends[e] + 1
+            return [(join(fmt, toks[:b] + toks[a:b] + toks[b:]), False, "dup-line")]
         if kind == "recursive":
             # a module/cell/model that (directly or through others) instantiates itself: invalid, must
             # be rejected or read without hanging
@@ -333,7 +416,8 @@ class C15(Prop):
         import spydrnet as sdn
 
         res = Result()
-        ref = reference_probe()
+        pair = int(core_hash(case), 16) % len(SPELLINGS)
+        ref = reference_probe(pair)
         if "raw" in case:
             # an input saved by the coverage-guided fuzzer
             fmt, text = case["raw"]["fmt"], case["raw"]["text"]
@@ -344,7 +428,7 @@ class C15(Prop):
             sdn.namespace_manager.default = "DEFAULT"
             self.one_parse(res, fmt, text, False, "fuzzer-input")
             sdn.namespace_manager.default = "DEFAULT"
-            if probe() != ref:
+            if probe_now(pair) != ref:
                 res.violate("C15:residue-after-%s-parses:fuzzer-input" % fmt, text[:300])
             return res
         texts = self.texts(case)
@@ -378,7 +462,7 @@ class C15(Prop):
                     return res
         # the probe: same behaviour as in a fresh process
         sdn.namespace_manager.default = "DEFAULT"
-        now = probe()
+        now = probe_now(pair)
         if now != ref:
             k = next((i for i, (a, b) in enumerate(zip(ref, now)) if a != b), min(len(ref), len(now)))
             what = ref[k][0] if k < len(ref) else "length"
